@@ -41,7 +41,7 @@ def raw_cases(row, tier, r):
     if w == 2:
         if tier == "thorough":
             return [bytes([a, b]) for a in range(256) for b in range(256)]
-        vals = set(range(0, 65536, 37)) | {0, 1, 0xFF, 0x100, 0xFFFD, 0xFFFE, 0xFFFF, 0x7FFF, 0x8000, 0x7FFE}
+        vals = set(range(0, 65536, 5)) | {0, 1, 0xFF, 0x100, 0xFFFD, 0xFFFE, 0xFFFF, 0x7FFF, 0x8000, 0x7FFE}
         for b in (row.min, row.max):
             if b is not None:
                 vals |= {max(b - 1, 0), b, min(b + 1, 65535)}
